@@ -42,3 +42,28 @@ def conc(name, src, threads, R, cflags=(), pre=('prologue',), post=('epilogue',)
                  bounds=dict(bounds, R=live_R or R, solo=so))
         out.append(d)
     return out
+
+
+def progress(name, src, threads, R, tested, cflags=(), pre=('prologue',), unwind=3, desc='', no_wait=True, solo_turns=2, tso=0, timeout=900,
+             extra=None, nslots=None, unwind_fn=None):
+    """C17-style obligation: R symbolic rounds leave every thread at an arbitrary point; then ONLY the tested thread(s) run (solo);
+    assert they finish and (no_wait) never executed a busy-wait hint nor blocked"""
+    ths = []
+    for i, t in enumerate(threads):
+        if isinstance(t, str):
+            t = dict(fn=t)
+        t = dict(t); t.setdefault('slot', i + 1)
+        ths.append(t)
+    slots = [t['slot'] for t in ths if t['fn'] in tested]
+    ns = nslots or (max(t['slot'] for t in ths) + 1)
+
+    def pl(f):
+        return (f[0], f[1]) if isinstance(f, (list, tuple)) else (f, 0)
+    d = dict(name=name, src=src, cflags=list(cflags), nslots=ns, pre=list(pre), post=[], plain=[pl(f) for f in pre], threads=ths, rounds=R,
+             unwind=unwind, tso=tso, timeout=timeout, rt_defines={'RT_NGHOST': 64}, unwind_fn=dict(unwind_fn or {}),
+             solo=dict(slots=slots * solo_turns, turns=1), require_done='assert_slots', done_slots=slots,
+             no_wait_slots=slots if no_wait else [], deadlock_check=False, witnesses=['end of harness reachable'],
+             desc=desc, bounds=dict(T=len(ths), R=R, U=unwind, B=tso, tested=list(tested), others='suspended wherever the symbolic prefix left them'))
+    if extra:
+        d.update(extra)
+    return [d]
